@@ -231,9 +231,10 @@ Proof. unfold len. simpl length. lia. Qed.
 Lemma len_snoc {A} (a : list A) x : len (a ++ [x]) = len a + 1.
 Proof. unfold len. rewrite app_length. simpl length. lia. Qed.
 
-Lemma len_set_arr a i v : 0 <= i -> len (set_arr a i v) = Z.max (len a) (i + 1).
+Lemma len_set_arr a i v : 0 <= i -> len a <= len (set_arr a i v) <= Z.max (len a) (i + 1).
 Proof.
   intros Hi. unfold set_arr.
+  destruct (is_nil v && (len a <=? i)); [lia|].
   destruct (i =? len a) eqn:E1; [rewrite len_app, len_cons, len_nil; lia|].
   destruct (len a <? i) eqn:E2.
   - rewrite !len_app, len_repeat, len_cons, len_nil. lia.
@@ -243,6 +244,10 @@ Qed.
 Lemma nthv_set_arr a i v j : 0 <= i -> nthv (set_arr a i v) j = if j =? i then v else nthv a j.
 Proof.
   intros Hi. unfold set_arr. pose proof (len_nonneg a) as Hl.
+  destruct (is_nil v && (len a <=? i)) eqn:E0.
+  { apply andb_true_iff in E0 as [Ev El]. destruct v; try discriminate.
+    destruct (j =? i) eqn:E; [|reflexivity]. apply nthv_beyond. lia. }
+  clear E0.
   destruct (i =? len a) eqn:E1.
   - destruct (j =? i) eqn:E.
     + rewrite nthv_app_r by lia. replace (j - len a) with 0 by lia. reflexivity.
